@@ -282,6 +282,14 @@ class Connection(ExportImport):
             raise ConnectionStateError("Cannot close a connection joined to "
                                        "a transaction")
 
+        if primary:
+            # The secondary connections of a multi-database are closed
+            # with this one: refuse before anything has been torn down.
+            for connection in self.connections.values():
+                if connection is not self and not connection._needs_to_join:
+                    raise ConnectionStateError(
+                        "Cannot close a connection joined to a transaction")
+
         self._cache.incrgc()  # This is a good time to do some GC
 
         # Call the close callbacks.
